@@ -824,6 +824,8 @@ def exPd : ProtoDefs :=
                       flatten := [['e','q','u','i','p']] }),
     (['f','o','o'], { children := none, flatten := [] }) ]
 def exParent : PDict := [(['a','h','u'], 1), (['e','q','u','i','p'], 7), (['f','o','o'], 9), (['z'], 0)]
+-- the hypothesis of the loop theorems holds of the example parent (as of every dict)
+example : (exParent.map Prod.fst).Nodup := by decide
 -- the loops as written put the entries in another order (an association list is compared tag by tag: protos_loop_eq)
 example : protosLoop libFuel libX.ns exPd exParent =
     [ [(['f','a','n'], 1), (['a','h','u'], 1), (['e','q','u','i','p'], 7)],
